@@ -45,12 +45,27 @@ DONE = {
               "blanks x trailers; the harness encrypts with its own cipher (checked against Eexec.tla) and compares the "
               "interpreter state; cipher coverage through readstring on long random sections."),
         ref="6.3, 11 C05", tech=TECH_MBT),
+    "C06": dict(
+        text=("T1Charstring.tla is the Type 1 BuildChar machine with exact rationals; MC_T1Font assembles model fonts "
+              "(every charstring command incl. flex after move/line/curve, div, subroutines, hint replacement, sbw, stem3, "
+              "seac composites; every container x lenIV x RD/-| names x number encoding x encoding form; FontInfo / Private "
+              "variants with defaults; date layouts) and prescribes the font a reader must return; an independent writer "
+              "in the harness (own ciphers, checked against Eexec.tla) serialises them and type1.Read is compared field by "
+              "field. Bounded-exhaustive over the grammar, not a proof."),
+        ref="6.5, 10, 11 C06", tech=TECH_MBT),
     "C07": dict(
         text=("CIDInit.tla on PSMachine executes generated CMap files (options x block sequences of the seven kinds x "
               "entry counts incl. 0/99/100 x mixed code lengths x every destination type x single-fault variants) and "
               "prescribes the dictionary ReadCMap must return, or an error; the harness lays the tokens out with seeded "
               "white space, comments and hex case and compares name, system info, type, WMode and every table."),
         ref="6.4, 11 C07", tech=TECH_MBT),
+    "C14": dict(
+        text=("PFB.tla states the decoding contract (Decode, fill-the-buffer reads, error classes); PFBImpl.tla is the "
+              "five-state machine of the decoder with in-place expansion and parked nibble, checked by TLC as a refinement of "
+              "PFB.tla for all segment sequences, caller buffer-size sequences and underlying short-read patterns within "
+              "bounds; MBT vectors (exhaustive small, simulated large, all 65536 header byte pairs) are replayed against "
+              "pfb.Decode and recorded per-Read traces are validated by TLC (TracePFB)."),
+        ref="6.9, 11 C14", tech="explicit TLA+ specification + refinement check with TLC, model-based test replay and trace validation"),
     "C11": dict(
         text=("Budget: PSMachine counts operations exactly as the library; TLC checks BudgetTransparent on the lock-step "
               "product of a budgeted and an unbudgeted run for every program x budget and the behaviours are replayed with "
